@@ -45,6 +45,8 @@ class Ctx:
         env["VERIF_DIR"] = self.verif
         env["VERIF_REPO"] = self.repo
         env.pop("RUSTFLAGS", None)
+        if os.environ.get("VERIF_COVERAGE"):
+            env["LLVM_PROFILE_FILE"] = os.path.join(os.environ["VERIF_COVERAGE"], "%p-%8m.profraw")
         return env
 
     def build(self, config, san=None):
@@ -58,6 +60,8 @@ class Ctx:
             "stateless": "stateless",
         }[config]
         name = "vh-%s%s" % (config, ("-" + san) if san else "")
+        if os.environ.get("VERIF_COVERAGE") and san is None:
+            name += "-cov"
         out = os.path.join(self.bindir, name)
         lock_path = os.path.join(self.work, "build.lock")
         env = self.base_env()
@@ -84,6 +88,15 @@ class Ctx:
                 # of the library has: an overflow that silently wraps in the default release build panics here
                 rustflags += " -C overflow-checks=on"
                 tdir = os.path.join(self.harness, "target-ovf")
+            cov = os.environ.get("VERIF_COVERAGE")
+            if cov and san is None:
+                # measurement mode (lib/coverage.sh): source-based coverage of /repo under the workloads; not a check
+                # only the two repository crates are instrumented (instrumented arkworks/rayon code is ~50x slower)
+                cmd += ["+nightly", "-Zprofile-rustflags",
+                        "--config", 'profile.release.package.rln.rustflags=["-Cinstrument-coverage"]',
+                        "--config", 'profile.release.package.zerokit_utils.rustflags=["-Cinstrument-coverage"]',
+                        "--config", 'profile.release.package.vh.rustflags=["-Cinstrument-coverage"]']
+                tdir = os.path.join(self.harness, "target-cov")
             cmd += ["build", "--release", "--offline", "--no-default-features", "--features", feats,
                     "--manifest-path", os.path.join(self.harness, "Cargo.toml"), "--target-dir", tdir]
             if san in ("asan", "tsan"):
